@@ -29,7 +29,7 @@ def _dt_inputs(rnd, case):
     return {'f0': st.unpack('<Q', st.pack('<d', rnd.choice([0.0, 1.5, -86400.25, 1e9, 1e100, float('nan'), 3600.0])))[0]}
 
 def plan(tier, rnd, units):
-    npaths = 30 if tier == 'quick' else 400
+    npaths = 24 if tier == 'quick' else 400
     fact = [{'id': 'x%s' % x, 'label': '%s followed by a symbolic number of "!"' % x, 'cfg': {0: x, 1: '1'}} for x in ('0', '1', '3', '5')]
     ops = ['power-of-power', 'mul-merge']
     dops = ['try-multiply', 'try-divide', 'try-power', 'multiply']
@@ -38,7 +38,7 @@ def plan(tier, rnd, units):
         {'entry': 'h_c08_factorial', 'cases': fact, 'opts': {'mode': 'replay', 'max_paths': 2000, 'instr_budget': 20_000_000, 'query_timeout_ms': 10000},
          'panic_is_violation': True, 'bound_is_violation': True, 'confirm_entry': 'h_c08_factorial_text', 'expect_covers': ['c08-factorial-evaluated'], 'selftest_inputs': _inputs},
         {'entry': 'h_c19_add', 'cases': [{'id': 'dt-add', 'label': 'date-time + symbolic duration', 'cfg': {0: '946684800', 1: 'add'}}, {'id': 'dt-sub', 'label': 'date-time - symbolic duration', 'cfg': {0: '946684800', 1: 'sub'}}],
-         'opts': {'mode': 'fork', 'max_paths': 60, 'instr_budget': 50_000_000, 'query_timeout_ms': 3000}, 'bounded_exploration': True,
+         'opts': {'mode': 'fork', 'max_paths': 30 if tier == 'quick' else 200, 'instr_budget': 50_000_000, 'query_timeout_ms': 3000}, 'bounded_exploration': True,
          'panic_is_violation': True, 'confirm_entry': 'h_c19_add_text', 'expect_covers': ['c19-evaluated', 'c19-out-of-range-error'], 'selftest_inputs': _dt_inputs},
         {'entry': 'h_c08_exponent', 'cases': [{'id': 'exp-' + o, 'label': o, 'cfg': {0: o}} for o in ops],
          'opts': {'mode': 'replay', 'max_paths': npaths, 'instr_budget': 20_000_000, 'query_timeout_ms': 3000}, 'bounded_exploration': True,
